@@ -30,6 +30,7 @@ class World:
             self.w.boot(a)
         self.cblog = []
         self.pub_delivered, self.pub_ops = [], []
+        self.cbs = collections.defaultdict(list)      # persistent callbacks registered per (agent, computation)
         self.silent, self.refused = [], []
         self.drain()
         self.w.exc.clear()
@@ -120,14 +121,20 @@ class World:
                 self.pub_ops.append((c, a))
                 d.register_computation(c, a, ag.address)
             elif k == "unreg":
+                self.cbs[(a, c)].clear()
                 d.unregister_computation(c, a)
             elif k == "sub":
                 d.subscribe_computation(c)
             elif k == "subcb":
-                d.subscribe_computation(c, self.cb(a, "C", c))
+                f = self.cb(a, "C", c)
+                self.cbs[(a, c)].append(f)
+                d.subscribe_computation(c, f)
+            elif k == "unsubcb":
+                d.unsubscribe_computation(c, self.cbs[(a, c)].pop())
             elif k == "subone":
                 d.subscribe_computation(c, self.cb(a, "C", c), one_shot=True)
             elif k == "unsub":
+                self.cbs[(a, c)].clear()
                 d.unsubscribe_computation(c)
             elif k == "rep":
                 d.register_replica(c, a)
@@ -172,9 +179,15 @@ def run(tier):
     quick = tier == "quick"
     v = Verdict("C20", tier, "model_checking")
     consts = dict(Agents=set(AGENTS), Comps=set(COMPS))
-    cases, res = CC.generate("Gen_C20", consts=dict(consts, MaxLen=3 if quick else 4, Exhaustive=True), cfg=GEN_CFG, workers=8, heap="6g", silent_states=1)
+    cases, res = CC.generate("Gen_C20", consts=dict(consts, MaxLen=3 if quick else 4, Exhaustive=True, WithDeliveries=True), cfg=GEN_CFG, workers=8,
+                             heap="6g", silent_states=1)
     v.add_tlc(res, "all histories of at most %d operations / single deliveries (Gen_C20 over Discovery.tla)" % (3 if quick else 4))
-    sim = tlc.run("Gen_C20", GEN_CFG, consts=dict(consts, MaxLen=10, Exhaustive=False), workers=1, simulate=400 if quick else 6000, depth=11,
+    # one computation, no explicit deliveries (every history is drained in a seeded order at its end): one operation deeper
+    cases1, res1 = CC.generate("Gen_C20", consts=dict(Agents=set(AGENTS), Comps={"c1"}, MaxLen=4 if quick else 5, Exhaustive=True, WithDeliveries=False),
+                               cfg=GEN_CFG, workers=8, heap="6g", silent_states=1)
+    v.add_tlc(res1, "all histories of at most %d operations on one computation (Gen_C20)" % (4 if quick else 5))
+    cases = cases + cases1
+    sim = tlc.run("Gen_C20", GEN_CFG, consts=dict(consts, MaxLen=10, Exhaustive=False, WithDeliveries=True), workers=1, simulate=400 if quick else 6000, depth=11,
                   seed=seed() + 20, timeout=240 if quick else 1200)
     v.add_tlc(sim, "random histories of 10 operations (TLC -simulate)")
     longer = [c[0] for c in sim.tagged("CASE")]
